@@ -217,7 +217,8 @@ def notRef : PObj → Prop
     parser yields exactly that tree (null-valued dictionary entries absent), nothing else, no error. -/
 theorem C01_nesting (v : PObj) (hc : clean v) (hr : notRef v) :
     feedAll {} (ser v) = { results := [norm v] } := by
-  have htop : ((({} : PState).error = none) ∧ (({} : PState).context = [])) := ⟨rfl, rfl⟩
+  have hD := good_stream
+  unfold feedAll
   cases v with
   | null =>
     have e1 : (StackParser.kwNull == [91]) = false := by decide
@@ -226,35 +227,61 @@ theorem C01_nesting (v : PObj) (hc : clean v) (hr : notRef v) :
     have e4 : (StackParser.kwNull == [62, 62]) = false := by decide
     have e5 : (StackParser.kwNull == [123]) = false := by decide
     have e6 : (StackParser.kwNull == [125]) = false := by decide
-    have e7 : (StackParser.kwNull == kwR) = false := by decide
-    simp [ser, feedAll_cons, feedAll_nil, feed, e1, e2, e3, e4, e5, e6, e7, doKeyword, push, norm]
-  | bool b => simp [ser, feedAll_cons, feedAll_nil, feed, push, norm]
-  | int i => simp [ser, feedAll_cons, feedAll_nil, feed, push, norm]
-  | real t => simp [ser, feedAll_cons, feedAll_nil, feed, push, norm]
-  | str s => simp [ser, feedAll_cons, feedAll_nil, feed, push, norm]
-  | lit n => simp [ser, feedAll_cons, feedAll_nil, feed, push, norm]
+    have hn : doKeyword {} StackParser.kwNull = push {} .null := hD.null {}
+    simp [ser, feedAllWith_cons, feedAllWith_nil, feedWith, e1, e2, e3, e4, e5, e6, hn, push, norm, streamDialect]
+  | bool b => simp [ser, feedAllWith_cons, feedAllWith_nil, feedWith, push, norm, streamDialect]
+  | int i => simp [ser, feedAllWith_cons, feedAllWith_nil, feedWith, push, norm, streamDialect]
+  | real t => simp [ser, feedAllWith_cons, feedAllWith_nil, feedWith, push, norm, streamDialect]
+  | str s => simp [ser, feedAllWith_cons, feedAllWith_nil, feedWith, push, norm, streamDialect]
+  | lit n => simp [ser, feedAllWith_cons, feedAllWith_nil, feedWith, push, norm, streamDialect]
   | kwd n => simp [clean] at hc
   | ref n g => simp [notRef] at hr
   | arr items =>
-    have ho := feed_open {} (Or.inr htop) [91] .a (Or.inl ⟨rfl, rfl⟩)
+    have ho := feed_open (D := streamDialect) {} rfl [91] .a (Or.inl ⟨rfl, rfl⟩)
     simp only [clean] at hc
-    simp only [ser, feedAll_cons, ho.1, feedAll_append]
-    rw [feed_serList items (startType {} .a) ho.2 hc]
-    simp only [feedAll_cons, feedAll_nil]
+    simp only [ser, feedAllWith_cons, ho.1, feedAllWith_append]
+    rw [feed_serList hD items (startType {} .a) ho.2 hc]
+    simp only [feedAllWith_cons, feedAllWith_nil]
     have e : ({ startType {} .a with curstack := (startType {} .a).curstack ++ normList items } : PState)
         = { startType {} .a with curstack := normList items } := by simp [startType]
     rw [e, feed_close_arr {} (normList items) rfl, norm]
-    simp [closed]
+    simp [closed, streamDialect]
   | dict es =>
-    have ho := feed_open {} (Or.inr htop) [60, 60] .d (Or.inr ⟨rfl, rfl⟩)
+    have ho := feed_open (D := streamDialect) {} rfl [60, 60] .d (Or.inr ⟨rfl, rfl⟩)
     simp only [clean] at hc
-    simp only [ser, feedAll_cons, ho.1, feedAll_append]
-    rw [feed_serEntries es (startType {} .d) ho.2 hc.1]
-    simp only [feedAll_cons, feedAll_nil]
+    simp only [ser, feedAllWith_cons, ho.1, feedAllWith_append]
+    rw [feed_serEntries hD es (startType {} .d) ho.2 hc.1]
+    simp only [feedAllWith_cons, feedAllWith_nil]
     have e : ({ startType {} .d with curstack := (startType {} .d).curstack ++ pairsOf es } : PState)
         = { startType {} .d with curstack := pairsOf es } := by simp [startType]
     rw [e, feed_close_dict {} es rfl hc.2.1 hc.2.2, norm]
-    simp [closed]
+    simp [closed, streamDialect]
+
+/-- The `getobj` reader (PDFParser behind PDFDocument.getobj): on the tokens `objid gen obj <tree> endobj …`
+    it returns exactly the tree's value — for EVERY clean tree, a bare `n g R` included. -/
+theorem C01_getobj_nesting (objid gen : Int) (v : PObj) (hc : clean v) (more : List Token) :
+    getobjToks objid (Token.int objid :: Token.int gen :: Token.kwd kwObj :: (ser v ++ Token.kwd kwEndobj :: more))
+      = .ok (norm v) := by
+  have hq : Quiet objDialect {} := ⟨rfl, by simp [objDialect]⟩
+  have hf := feed_ser good_obj v {} hq hc
+  have hpre := nextobjectP_prefix (ser v) (Token.kwd kwEndobj :: more) {} (by rw [hf]; simp [push]) (by rw [hf]; simp [push])
+  have e1 : (kwEndobj == [91]) = false := by decide
+  have e2 : (kwEndobj == [93]) = false := by decide
+  have e3 : (kwEndobj == [60, 60]) = false := by decide
+  have e4 : (kwEndobj == [62, 62]) = false := by decide
+  have e5 : (kwEndobj == [123]) = false := by decide
+  have e6 : (kwEndobj == [125]) = false := by decide
+  have e7 : (kwEndobj == kwXref) = false := by decide
+  have e8 : (kwEndobj == kwStartxref) = false := by decide
+  have hend : feedWith objDialect (push {} (norm v)) (Token.kwd kwEndobj) = { results := [norm v] } := by
+    simp [feedWith, push, e1, e2, e3, e4, e5, e6, objDialect, doKeywordP, e7, e8, popToResults]
+  simp only [getobjToks, bne_self_eq_false, Bool.false_eq_true, if_false]
+  rw [hpre, hf]
+  simp only [nextobjectP, push, Option.isSome_none, List.isEmpty_nil, Bool.not_true, Bool.or_self, Bool.false_eq_true,
+    if_false]
+  have hend' : feedWith objDialect { curstack := [] ++ [norm v] } (Token.kwd kwEndobj) = { results := [norm v] } := by
+    simpa [push] using hend
+  rw [hend', nextobjectP_done _ _ (by simp)]
 
 /-- Non-vacuity: `<< /K [ 1 7 R null (s) ] /N null >>` — two levels, a reference, a dropped entry —
     meets the hypotheses. -/
@@ -316,6 +343,53 @@ theorem C01_offset_partial (b : Nat) (hb : 1 ≤ b) (pad : List SepItem) (hpad :
   simp only [tokVals] at htok
   rw [htok]
   exact congrArg some (C01_nesting (valueOf t) (clean_tree t hwf) hnr)
+
+/-- END-TO-END for the `getobj` reader: an indirect object `n g obj <spelled tree> endobj` (any separators,
+    minimal delimiters and comments included, any white space / comments in front, any buffer size)
+    read by the tokenizer and `PDFDocument._getobj_parse` / `PDFParser.nextobject` yields exactly the
+    tree's value — a bare `n g R` included.  (`_partial`: even hex digit count only; the offset comes from
+    the cross-reference table, which is C02's business; a stream object is outside C01.) -/
+theorem C01_getobj_roundtrip_partial (b : Nat) (hb : 1 ≤ b) (pad : List SepItem) (hpad : sepOK pad)
+    (o : ObjSpelling) (ho : o.wf) :
+    (run b (renderSep pad ++ o.bytes)).map (fun ts => getobjToks (intValue [] o.ds) (tokVals ts))
+      = some (.ok (norm (valueOf o.body))) := by
+  have hu := LexUnit.append_free (LexUnit.sep pad hpad) (lex_obj o ho)
+  obtain ⟨st', hm, h⟩ := hu St.init 10 [] 0 (Or.inl rfl) (fun _ => by decide)
+  have htok : tokVals (specLex (renderSep pad ++ o.bytes)) =
+      Token.int (intValue [] o.ds) :: Token.int (intValue [] o.gs) :: Token.kwd kwObj ::
+        (ser (valueOf o.body) ++ Token.kwd kwEndobj :: []) := by
+    unfold specLex
+    rw [h, ho_newline st' _ hm]
+    simp [tokVals]
+  rw [C14.C14_run_eq_spec b hb, Option.map_some, htok,
+    C01_getobj_nesting _ _ _ (clean_tree o.body ho.2.2.2.2.2.2.2.2.1) []]
+
+/-- Non-vacuity: `12 0 obj<</K 7 3 R>>endobj` (no white space around the dictionary) is a well-formed object
+    spelling whose body is a dictionary holding a reference with generation 3; a bare reference body works too. -/
+example : (ObjSpelling.mk [49, 50] [.ws 32] [48] [.ws 32] []
+      (.dict [] [([.raw 75], [.ws 32], .ref [55] [.ws 32] [51] [.ws 32] [])] []) []).wf ∧
+    (ObjSpelling.mk [49, 50] [.ws 32] [48] [.ws 10] [.ws 32] (.ref [55] [.ws 32] [51] [.ws 32] [.ws 10]) []).wf := by
+  have hnil : sepOK [] := by intro i hi; cases hi
+  have hws : sepOK [.ws 32] := by intro i hi; simp at hi; subst hi; simp [SepItem.ok, isGapByte]
+  have hnl : sepOK [.ws 10] := by intro i hi; simp at hi; subst hi; simp [SepItem.ok, isGapByte]
+  have hk : ∀ i ∈ [NameItem.raw 75], i.ok := by
+    intro i hi; simp at hi; subst hi; simp [NameItem.ok]; decide +kernel
+  have hr : wf (.ref [55] [.ws 32] [51] [.ws 32] []) := by
+    simp only [wf, digitsOK]
+    exact ⟨⟨by decide, by decide, by decide⟩, hws, by simp, ⟨by decide, by decide, by decide⟩, hws, by simp, hnil⟩
+  have hr2 : wf (.ref [55] [.ws 32] [51] [.ws 32] [.ws 10]) := by
+    simp only [wf, digitsOK]
+    exact ⟨⟨by decide, by decide, by decide⟩, hws, by simp, ⟨by decide, by decide, by decide⟩, hws, by simp, hnl⟩
+  have hd : wf (.dict [] [([.raw 75], [.ws 32], .ref [55] [.ws 32] [51] [.ws 32] [])] []) := by
+    simp only [wf, wfEntries, valueEntries, keysOf]
+    refine ⟨hnil, ⟨hk, hws, by simp, hr, trivial⟩, hnil, by simp, ?_⟩
+    intro k hk'; simp [nameValue, NameItem.value] at hk'; subst hk'; decide +kernel
+  constructor
+  · refine ⟨⟨by decide, by decide, by decide⟩, hws, by simp, ⟨by decide, by decide, by decide⟩, hws, by simp, hnil, ?_,
+      hd, rfl, hnil⟩
+    intro _ rest; simp [bytesOf, isDW]
+  · exact ⟨⟨by decide, by decide, by decide⟩, hws, by simp, ⟨by decide, by decide, by decide⟩, hnl, by simp, hws,
+      by simp, hr2, rfl, hnil⟩
 
 /-- Non-vacuity, with minimal delimiters, a comment and a generation number:
     `[-07/A#20(a\)b)<4 1><</K/V>>3 7 R]%c<LF>`. -/
